@@ -176,6 +176,18 @@ CHECKS = {
              "to 128.",
         note="for k>32 'all data words' rests on GF(2) linearity, probed by samples; parity position taken as interface",
         ref="4 (C18)", engine="tlc+fhdl_step"),
+    "C19": dict(
+        technique="TLA+ protocol contracts (Uart, SpiMaster, SpiSlave, I2c, Timers) model-checked by TLC (safety + "
+                  "liveness Finishes) on the closed-loop product of command/line environments with the transition graphs "
+                  "of the real RS232PHY TX/RX, SPIMaster, SPISlave, I2CMaster, Timer, Watchdog, WaitTimer, timeline, PWM "
+                  "netlists; recorded simulations at realistic parameters validated against the same specs",
+        text="all command timings relative to the divider phase, back-to-back and overlapping commands, all data words "
+             "at reduced widths, bit periods 2..16/3 cycles (TX) and 4..16 cycles with +-2% mismatch at every phase (RX); "
+             "waveform, count, framing and event clauses are invariants, completion is a temporal property; vacuity "
+             "witnesses are required.",
+        note="reduced widths/dividers in G-mode (Timer/Watchdog 2-3 bit, 30 bit in T-mode); UART FIFO/CSR wrapper not "
+             "composed; six known findings (listed)",
+        ref="4 (C19)"),
     "C20": dict(
         technique="TLA+ spec of the request space (PllRequests: seeded simulation + two exhaustive sub-spaces) "
                   "executed on the real clocking helpers; configurations, emitted Instance parameters and declared "
